@@ -31,7 +31,53 @@ def _range_tree_ok(r, min_leaf, max_leaf):
     return wide and strip_casts(a) == max_leaf and strip_casts(b) == min_leaf
 
 
+def _const_bits(t):
+    """value of a constant width expression: integer literals, casts, products, size_of::<T>(), T::BITS"""
+    t = strip(t)
+    while t[0] == "cast":
+        t = strip(t[2])
+    if t[0] == "const" and isinstance(t[2], int):
+        return t[2]
+    if t[0] == "binop" and t[1] == "Mul":
+        a, b = _const_bits(t[2]), _const_bits(t[3])
+        return None if a is None or b is None else a * b
+    if t[0] == "call" and t[1].endswith("mem::size_of") and len(t) > 4 and t[4]:
+        return {"f32": 4, "f64": 8, "u32": 4, "u64": 8, "i32": 4, "i64": 8, "u8": 1, "u16": 2}.get(str(t[4][0]))
+    return None
+
+
+def bit_size_table(ctx, prog, rule):
+    """the writer sizes its packets with RecordDataType::bit_size: 32 bits for Single, 64 for Double, integer_bits(min,
+    max) of the same variant for the two integer kinds (decided per variant on the pruned flow graph)"""
+    from simple_rules import assume_cfg, leaf_name
+    f = prog.fn("record::RecordDataType::bit_size")
+    ctx.fn_seen(f)
+    R = Resolver(f)
+    adt = prog.adt("record::RecordDataType")
+    got = {}
+    for vi, v in enumerate(adt["variants"]):
+        g = assume_cfg(f, [(lambda s_: strip(s_) == ("param", 1) or leaf_name(s_) == "arg1", vi)])
+        r = reach(g, [0])
+        vals = []
+        for bi, si, cls, payload in f.ret_assignments():
+            if bi not in r:
+                continue
+            tr = R._call(payload, bi, 0, frozenset()) if cls == "fwd" or (isinstance(payload, dict) and payload.get("k") == "call") else R.rvalue(payload)
+            tr = strip(tr)
+            c = _const_bits(tr)
+            if c is not None:
+                vals.append(c)
+            elif tr[0] == "call" and tr[1] == "record::integer_bits":
+                vals.append("integer_bits(%s)" % ", ".join(tree_str(strip_deep(a)) for a in tr[2]))
+            else:
+                vals.append(tree_str(strip_deep(tr))[:60])
+        got[v["name"]] = vals
+    want = {"Single": [32], "Double": [64], "ScaledInteger": ["integer_bits(arg1.ScaledInteger.min, arg1.ScaledInteger.max)"], "Integer": ["integer_bits(arg1.Integer.min, arg1.Integer.max)"]}
+    ctx.ob(rule, "bit-size/RecordDataType::bit_size", got == want, "bit_size per variant: %s (must be 32 / 64 / integer_bits(min, max) of the same variant)" % got)
+
+
 def width_formula(ctx, prog, rule):
+    bit_size_table(ctx, prog, rule)
     n = 0
     # writer: record::integer_bits(min=arg1, max=arg2)
     f = prog.fn("record::integer_bits")
